@@ -1760,8 +1760,9 @@ def render(t):
          "structure Field where", "  id : Nat", "  struct : Nat", "  off : Nat", "  pointee : Nat", "  dtor : Nat", "  inUnion : Bool", "  name : String", "  deriving Repr", "",
          "/-- one release performed by a delete function: `fn(v->path)`.  `field` = the member the path names (its head member when the path goes on",
          "through `->`/`[]`: then `deep`), `off` that member's offset, `guarded` = under `if (v->path != NULL)`, `cond` = index into `condTexts` of any",
-         "other condition on the way (0: none), `chain` = `fn` is applied to every node of the list linked through a member of the node -/",
-         "structure Rel where", "  field : Nat", "  off : Nat", "  fn : Nat", "  guarded : Bool", "  cond : Nat", "  deep : Bool", "  chain : Bool", "  text : String", "  deriving Repr", "",
+         "other condition on the way (0: none), `chain` = `fn` is applied to every node of the list linked through a member of the node,",
+         "`link` = 1 + the offset of that link member in the node struct (0: no chain) -/",
+         "structure Rel where", "  field : Nat", "  off : Nat", "  fn : Nat", "  guarded : Bool", "  cond : Nat", "  deep : Bool", "  chain : Bool", "  link : Nat", "  text : String", "  deriving Repr", "",
          "/-- the releases on the switch arms selected by the tags `labels` (fall-through already followed); `mask` = Σ 2^label -/",
          "structure Arm where", "  labels : List Nat", "  mask : Nat", "  rels : List Rel", "  deriving Repr", "",
          "/-- source of a value stored into a pointer member -/",
@@ -1798,7 +1799,15 @@ def render(t):
         f = fid.get((d["struct"], r["head"]), None)
         if f is None and not d["opaque"]:
             problems.append("%s: no field row for `%s`" % (d["fn"], r["head"]))
-        return "⟨%d, %d, %d, %s, %d, %s, %s, %s⟩" % (f if f is not None else 0, r["off"], fn_id(r["fn"]), lb(r["guarded"]), cond_id(r["cond"]), lb(r["deep"]), lb(bool(r["chain"])),
+        link = 0
+        if r["chain"]:
+            node_t = next((x["pointee"] for x in t["fields"] if x["struct"] == d["struct"] and x["path"] == r["head"]), None)
+            lf = next((x for x in t["fields"] if x["struct"] == node_t and x["path"] == r["chain"]), None)
+            if lf is None:
+                problems.append("%s: the list loop follows `%s`, which is not a pointer member of %s" % (d["fn"], r["chain"], node_t))
+            else:
+                link = lf["off"] + 1
+        return "⟨%d, %d, %d, %s, %d, %s, %s, %d, %s⟩" % (f if f is not None else 0, r["off"], fn_id(r["fn"]), lb(r["guarded"]), cond_id(r["cond"]), lb(r["deep"]), lb(bool(r["chain"])), link,
                                                      ls("%s(%s)%s%s" % (r["fn"], r["path"], (" if " + r["cond"]) if r["cond"] else "", (" along ->" + r["chain"]) if r["chain"] else "")))
     deleter_of = {d["struct"]: d["fn"] for d in t["dels"]}
     def field_row(i, f):
